@@ -264,4 +264,89 @@ func c12Scenarios(c *Ctx) {
 		r.Check(verdict == want, "R12g", key, pos, msg)
 	}
 	_ = strings.Join
+	c.W.Concrete = false
+	c12MethodConfigGrid(c)
+}
+
+// c12MethodConfigGrid: ValidateMethodConfig against the documented rules over a small
+// exhaustive grid: request fields {a, b}; each field is carried by the path, by the query, by both, or
+// by neither; field a is a string or a message; five verbs plus unset. The expected verdict is computed
+// from the documented rules, not from the code.
+func c12MethodConfigGrid(c *Ctx) {
+	r := c.R
+	fn := c.P.Func(pkgHTTP, "ValidateMethodConfig")
+	if fn == nil {
+		return
+	}
+	pos := c.P.Pos(c.P.Decls[fn].Pos())
+	c.W.Concrete = true
+	defer func() { c.W.Concrete = false }()
+	carriers := []string{"none", "path", "query", "both"}
+	n, bad := 0, 0
+	for _, verb := range []string{"", "GET", "POST", "PUT", "DELETE", "PATCH"} {
+		for _, ca := range carriers {
+			for _, cb := range carriers {
+				for _, aKind := range []string{"string", "message"} {
+					for _, ghost := range []bool{false, true} { // a path variable without a field
+						path := "/x"
+						var qps [][2]string
+						if ca == "path" || ca == "both" {
+							path += "/{a}"
+						}
+						if cb == "path" || cb == "both" {
+							path += "/{b}"
+						}
+						if ghost {
+							path += "/{ghost}"
+						}
+						if ca == "query" || ca == "both" {
+							qps = append(qps, [2]string{"a", "qa"})
+						}
+						if cb == "query" || cb == "both" {
+							qps = append(qps, [2]string{"b", "qb"})
+						}
+						fa := fld("a", aKind)
+						if aKind == "message" {
+							fa = fa.msg(cMessage("Inner"))
+						}
+						in := cMessage("Req", fa, fld("b", "string"))
+						in.Fields["@GetQueryParams"] = cQueryParams(qps...)
+						m := cMethod("Do", in, cMessage("Resp"), map[string]Val{"@GetMethodHTTPConfig": cHTTPConfig(path, verb)})
+						bodiless := verb == "GET" || verb == "DELETE"
+						want := ghost ||
+							((ca == "path" || ca == "both") && aKind == "message") ||
+							ca == "both" || cb == "both" ||
+							(bodiless && (ca == "none" || cb == "none"))
+						run := c.W.NewRun(map[string]int{}, false)
+						run.InlineAll, run.FollowSlices = true, true
+						run.CallHook = c.cdescHook
+						run.StartArgs(fn, map[string]Val{"service": cService("Svc", m), "method": m})
+						n++
+						got := false
+						switch x := run.Result.(type) {
+						case VList:
+							got = len(x.Elems) > 0
+						case VNil:
+						default:
+							r.Undec("R12g", "ValidateMethodConfig grid", pos, fmt.Sprintf("result not concrete for verb=%q a:%s/%s b:%s ghost=%v", verb, ca, aKind, cb, ghost))
+							return
+						}
+						if len(run.Used) > 0 {
+							r.Undec("R12g", "ValidateMethodConfig grid", pos, fmt.Sprintf("open decisions %v", usedKeys(run)))
+							return
+						}
+						if got != want && bad < 5 {
+							bad++
+							r.Bad("R12g", fmt.Sprintf("ValidateMethodConfig grid: verb=%q a(%s) carried by %s, b carried by %s, ghost path variable=%v → %s", verb, aKind, ca, cb, ghost, map[bool]string{true: "refused", false: "accepted"}[want]), pos,
+								fmt.Sprintf("ValidateMethodConfig %s this definition; the documented rules (path variable needs a scalar field; a field is bound to path or query, not both; a bodiless verb leaves no field unbound) say it must be %s", map[bool]string{true: "refuses", false: "accepts"}[got], map[bool]string{true: "refused", false: "accepted"}[want]), nil)
+						}
+					}
+				}
+			}
+		}
+	}
+	if bad == 0 {
+		r.OKd("R12g", fmt.Sprintf("ValidateMethodConfig agrees with the documented rules on an exhaustive grid of %d definitions", n), pos, nil)
+	}
+	r.Count("method-config grid points", n)
 }
